@@ -357,17 +357,36 @@ func c19Relay(x *fleetExec, e engine.Event) {
 	x.st.Probe("relay-" + m.form + "-to-" + e.S)
 }
 
-func clearlyDifferent(a, b *engine.Node) (different, decidable bool) {
+// clearlyDifferent decides whether two mapping specs denote clearly different
+// mappings: different kinds; the same kind with accuracies 0.1% or more apart;
+// or the same kind and base with index offsets that differ by a whole bin or
+// more (the receiver would file every value under another index). The last rule
+// is used by C08 and C13 ("a mapping that differs"), not by C19, whose statement
+// only names kinds and accuracies.
+func clearlyDifferent(a, b *engine.Node, offsets bool) (different, decidable bool) {
 	if a.Map != b.Map {
 		return true, true
+	}
+	ma, err1 := buildMapping(a)
+	mb, err2 := buildMapping(b)
+	if err1 != nil || err2 != nil {
+		return false, false
+	}
+	pa, pb := ma.ToProto(), mb.ToProto()
+	if fbits(pa.Gamma) == fbits(pb.Gamma) {
+		d := math.Abs(pa.IndexOffset - pb.IndexOffset)
+		if d == 0 {
+			return false, true
+		}
+		if d >= 1 && offsets {
+			return true, true
+		}
+		return false, false
 	}
 	if a.ByGam || b.ByGam {
 		return false, false
 	}
 	x, y := float64(a.Alpha), float64(b.Alpha)
-	if x == y {
-		return false, true
-	}
 	if math.Abs(x-y) >= 1e-3*math.Max(x, y) {
 		return true, true
 	}
@@ -397,12 +416,13 @@ func c19MapEq(x *fleetExec, e engine.Event) {
 		}
 		return
 	}
-	if diff, ok := clearlyDifferent(&a.spec, &b.spec); ok && diff {
+	if diff, ok := clearlyDifferent(&a.spec, &b.spec, false); ok && diff {
 		x.st.Oracle("different-never-equal")
 		if ab || ba {
 			x.fail("different-never-equal", sig, fmt.Sprintf("mappings %s and %s are reported equal", mapKey(&a.spec), mapKey(&b.spec)), "false", "true")
 		}
-		x.st.ProbeIf(a.spec.Map == b.spec.Map, "same-kind-different-alpha")
+		x.st.ProbeIf(a.spec.Map == b.spec.Map && fbits(float64(a.spec.Gamma)) != fbits(float64(b.spec.Gamma)), "same-kind-different-alpha")
+		x.st.ProbeIf(a.spec.Map == b.spec.Map && a.spec.ByGam && b.spec.ByGam && fbits(float64(a.spec.Gamma)) == fbits(float64(b.spec.Gamma)), "same-base-different-offset")
 		x.st.ProbeIf(a.spec.Map != b.spec.Map, "different-kinds")
 	}
 }
@@ -440,7 +460,7 @@ func c19Intrude(x *fleetExec, e engine.Event) {
 	if nd == nil || m == nil || m.form != "bin" || m.mkey == nd.mkey || nd.exact() && !m.exact {
 		return
 	}
-	if diff, ok := clearlyDifferent(&m.spec, &nd.spec); !ok || !diff {
+	if diff, ok := clearlyDifferent(&m.spec, &nd.spec, false); !ok || !diff {
 		return
 	}
 	sig := "intrude/" + nd.spec.Map + "/" + m.spec.Map
